@@ -1,5 +1,7 @@
-(* C15 - A type's name, version and port-ID are exactly those encoded in its file path. Statements only. *)
-From Coq Require Import ZArith List Bool.
+(* C15 - A type's name, version and port-ID are exactly those encoded in its file path. Statements only.
+   Partial (not modelled): Path.resolve beyond "make absolute" (symbolic links, ".."), case-insensitive file systems,
+   the 4300-digit limit of int().  The file system listing and the working directory are explicit arguments. *)
+From Coq Require Import ZArith List Bool Lia.
 From PV Require Import Util.ListSet Namespace.Paths Namespace.PathsProofs.
 Import ListNotations.
 Open Scope Z_scope.
@@ -8,3 +10,212 @@ Open Scope Z_scope.
 Theorem C15_decimal : forall s v, parse_decimal s = Some v <-> digits s /\ v = dec_value s.
 Proof. exact parse_decimal_some. Qed.
 Print Assumptions C15_decimal.
+
+Theorem C15_decimal_render : forall n, 0 <= n -> parse_decimal (render_dec n) = Some n /\ digits (render_dec n).
+Proof. exact parse_render_dec. Qed.
+Print Assumptions C15_decimal_render.
+
+(* parse (render) = identity: <root>/<ns>/.../[<port>.]<Short>.<major>.<minor>.<suffix> yields exactly the encoded
+   full name (root directory name, directories, short name), version and port-ID *)
+Theorem C15_roundtrip : forall fs root ds sp short smj smn sfx,
+  let file := root ++ ds ++ [render_basename sp short smj smn sfx] in
+  no_dot (pname root) -> Forall no_dot ds -> wf_fields sp short smj smn sfx -> exists_ fs file = true ->
+  mk_definition fs file root =
+  Ok (mkDef file root (join_with dot ((pname root :: ds) ++ [short])) (dec_value smj) (dec_value smn) (option_map dec_value sp)).
+Proof. exact mk_definition_render. Qed.
+Print Assumptions C15_roundtrip.
+
+(* a definition is constructed iff the file exists and its path has that shape, with decimal-digit numbers *)
+Theorem C15_shape : forall fs file root d,
+  mk_definition fs file root = Ok d <->
+  exists_ fs file = true /\
+  exists ds sp short smj smn sfx,
+    file = root ++ ds ++ [render_basename sp short smj smn sfx] /\
+    no_dot (pname root) /\ Forall no_dot ds /\ wf_fields sp short smj smn sfx /\
+    d = mkDef file root (join_with dot ((pname root :: ds) ++ [short])) (dec_value smj) (dec_value smn) (option_map dec_value sp).
+Proof. exact mk_definition_shape. Qed.
+Print Assumptions C15_shape.
+
+(* the composite-level checks accept a message definition of that shape iff names, length, version and port-ID are
+   valid, and then source_file_path and source_file_path_to_root are the file and the root it was parsed against *)
+Theorem C15_points_back_message : forall rp rn ds short b mj mn port,
+  let root := rp ++ [rn] in
+  let file := root ++ ds ++ [b] in
+  let cs := (rn :: ds) ++ [short] in
+  Forall no_dot cs ->
+  composite_of false (mkDef file root (join_with dot cs) mj mn port) =
+  if msg_checks cs mj mn port then Ok (mkId (join_with dot cs) mj mn port file root) else Err RInvalid.
+Proof. exact composite_of_msg. Qed.
+Print Assumptions C15_points_back_message.
+
+Theorem C15_points_back_service : forall rp rn ds short b mj mn port,
+  let root := rp ++ [rn] in
+  let file := root ++ ds ++ [b] in
+  let cs := (rn :: ds) ++ [short] in
+  Forall no_dot cs ->
+  composite_of true (mkDef file root (join_with dot cs) mj mn port) =
+  if svc_checks cs mj mn port then Ok (mkId (join_with dot cs) mj mn port file root) else Err RInvalid.
+Proof. exact composite_of_svc. Qed.
+Print Assumptions C15_points_back_service.
+
+(* both layers together: what a reader observes of one file under one root *)
+Theorem C15_identity : forall fs rp rn file i,
+  let root := rp ++ [rn] in
+  identity_of fs file root = Ok i <->
+  exists_ fs file = true /\
+  exists ds sp short smj smn sfx,
+    file = root ++ ds ++ [render_basename sp short smj smn sfx] /\
+    no_dot rn /\ Forall no_dot ds /\ wf_fields sp short smj smn sfx /\
+    kind_checks (file_is_service fs file) ((rn :: ds) ++ [short]) (dec_value smj) (dec_value smn) (option_map dec_value sp) = true /\
+    i = mkId (join_with dot ((rn :: ds) ++ [short])) (dec_value smj) (dec_value smn) (option_map dec_value sp) file root.
+Proof. exact identity_of_spec. Qed.
+Print Assumptions C15_identity.
+
+(* root inference.  (1) roots designated by paths, absolute or relative to the working directory; target absolute
+   or relative to the working directory: if the target lies under exactly one of the given roots, the definition is
+   the one of (target, that root) whatever the spellings, the order of the list and the other roots *)
+Theorem C15_strategies_paths : forall fs cwd t roots r0,
+  let f := resolve cwd t in
+  (is_abs t = true \/ exists_ fs f = true) ->
+  In r0 roots -> covers cwd f r0 = true ->
+  (forall r, In r roots -> covers cwd f r = true -> resolve cwd r = resolve cwd r0) ->
+  from_first_in fs cwd roots t = mk_definition fs f (resolve cwd r0).
+Proof. exact from_first_in_paths. Qed.
+Print Assumptions C15_strategies_paths.
+
+(* (2) no roots, relative target: the first component is the root *)
+Theorem C15_strategies_inferred : forall fs cwd c rest,
+  exists_ fs (cwd ++ [c]) = true ->
+  from_first_in fs cwd [] (P false (c :: rest)) = mk_definition fs (cwd ++ c :: rest) (cwd ++ [c]).
+Proof. exact from_first_in_no_roots. Qed.
+Print Assumptions C15_strategies_inferred.
+
+(* (3) bare root names, absolute target not covered by any root path: the first directory of the target that
+   carries one of the names is the root *)
+Theorem C15_strategies_bare_name : forall fs cwd f roots pre n post b,
+  f = pre ++ n :: post ++ [b] ->
+  roots <> [] ->
+  (forall r, In r roots -> covers cwd f r = false) ->
+  str_in n (bare_names roots) = true ->
+  (forall x, In x pre -> str_in x (bare_names roots) = false) ->
+  from_first_in fs cwd roots (P true f) = mk_definition fs f (pre ++ [n]).
+Proof. exact from_first_in_bare_name. Qed.
+Print Assumptions C15_strategies_bare_name.
+
+(* (4) a relative target that begins with the name of its root (relative to the directory that contains the root)
+   and does not exist relative to the working directory; the root given as a path *)
+Theorem C15_strategies_name_relative : forall fs cwd a pre n rest roots,
+  let r0 := P a (pre ++ [n]) in
+  let t := P false (n :: rest) in
+  exists_ fs (cwd ++ n :: rest) = false ->
+  exists_ fs (resolve cwd (P a (pre ++ n :: rest))) = true ->
+  In r0 roots ->
+  (forall r, In r roots -> relative_to t r = None) ->
+  (forall r p, In r roots -> walk_up fs cwd t (is_abs r) (rev (comps r)) = Some p -> p = r0) ->
+  from_first_in fs cwd roots t = mk_definition fs (resolve cwd (P a (pre ++ n :: rest))) (resolve cwd r0).
+Proof. exact from_first_in_name_relative. Qed.
+Print Assumptions C15_strategies_name_relative.
+
+(* read_files with one target and one root path: the answer is the identity of (file, root directory) *)
+Theorem C15_read_files_single : forall fs cwd t r0,
+  let f := resolve cwd t in
+  let R := resolve cwd r0 in
+  (is_abs t = true \/ exists_ fs f = true) ->
+  covers cwd f r0 = true ->
+  exists_ fs R = true ->
+  (exists ds, definitions_of_namespaces fs [R] = Ok ds) ->
+  read_files fs cwd [t] [r0] [] = bind (identity_of fs f R) (fun i => Ok [i]).
+Proof. exact read_files_single. Qed.
+Print Assumptions C15_read_files_single.
+
+(* "the mapping is the same however the root is designated": two designations (absolute / relative to two different
+   working directories) of the same file and the same root directory give the same answer *)
+Theorem C15_designations_agree : forall fs cwd cwd' t t' r r',
+  resolve cwd t = resolve cwd' t' -> resolve cwd r = resolve cwd' r' ->
+  (is_abs t = true \/ exists_ fs (resolve cwd t) = true) ->
+  (is_abs t' = true \/ exists_ fs (resolve cwd' t') = true) ->
+  covers cwd (resolve cwd t) r = true ->
+  exists_ fs (resolve cwd r) = true ->
+  (exists ds, definitions_of_namespaces fs [resolve cwd r] = Ok ds) ->
+  read_files fs cwd [t] [r] [] = read_files fs cwd' [t'] [r'] [].
+Proof. exact designations_agree. Qed.
+Print Assumptions C15_designations_agree.
+
+(* read_namespace returns, for every *.dsdl / *.uavcan file below the root, exactly the identity encoded by its path *)
+Theorem C15_read_namespace : forall fs cwd r ids,
+  let R := resolve cwd r in
+  read_namespace fs cwd r [] = Ok ids ->
+  Forall2 (fun g i => identity_of fs g R = Ok i) (globbed fs R) ids.
+Proof. exact read_namespace_identities. Qed.
+Print Assumptions C15_read_namespace.
+
+(* ---------------------------------------------------------------------------------------------------------- *)
+(* witnesses                                                                                                   *)
+
+Definition s_workspace := [119; 111; 114; 107; 115; 112; 97; 99; 101].
+Definition s_project := [112; 114; 111; 106; 101; 99; 116].
+Definition s_types := [116; 121; 112; 101; 115].
+Definition s_animals := [97; 110; 105; 109; 97; 108; 115].
+Definition s_felines := [102; 101; 108; 105; 110; 101; 115].
+Definition s_Tabby := [84; 97; 98; 98; 121; 46; 49; 46; 48; 46; 100; 115; 100; 108].
+Definition s_plants := [112; 108; 97; 110; 116; 115].
+Definition s_trees := [116; 114; 101; 101; 115].
+Definition s_Fir := [68; 111; 117; 103; 108; 97; 115; 70; 105; 114; 46; 49; 46; 48; 46; 100; 115; 100; 108].
+Definition d_animals := [s_workspace; s_project; s_types; s_animals].
+Definition d_plants := [s_workspace; s_project; s_types; s_plants].
+Definition f_Tabby := d_animals ++ [s_felines; s_Tabby].
+Definition f_Fir := d_plants ++ [s_trees; s_Fir].
+Definition doc_fs : fsys :=
+  mkFs [(f_Tabby, false); (f_Fir, false)]
+       [[]; [s_workspace]; [s_workspace; s_project]; [s_workspace; s_project; s_types]; d_animals; d_plants;
+        d_animals ++ [s_felines]; d_plants ++ [s_trees]].
+Definition id_Tabby : ident :=
+  mkId [97; 110; 105; 109; 97; 108; 115; 46; 102; 101; 108; 105; 110; 101; 115; 46; 84; 97; 98; 98; 121] 1 0 None f_Tabby d_animals.
+
+(* the example of the read_files docstring: four of the spellings give the encoded identity ... (F13, fixed) *)
+Example C15_doc_example_agrees :
+  read_files doc_fs [] [P false f_Tabby] [P false [s_animals]; P false [s_plants]] [] = Ok [id_Tabby] /\
+  read_files doc_fs [] [P false f_Tabby] [P false d_animals; P false d_plants] [] = Ok [id_Tabby] /\
+  read_files doc_fs [] [P true f_Tabby] [P false d_plants; P false d_animals] [] = Ok [id_Tabby] /\
+  read_files doc_fs [s_workspace] [P false [s_animals; s_felines; s_Tabby]] [P true d_animals; P true d_plants] [] = Ok [id_Tabby].
+Proof. repeat split; vm_compute; reflexivity. Qed.
+
+(* ... but the third documented spelling does not (open finding F16): the relative target exists, lies under exactly
+   one of the designated roots (animals, by bare name), no other given root covers it, and still the inference returns
+   the directory `workspace` - an ancestor of the OTHER root - so that the call is rejected (nested root namespaces).
+   The full-strength "every designation yields the same identity" is therefore false of the code as it is. *)
+Theorem C15_strategy3_ancestor_refuted :
+  exists fs cwd t roots own,
+    exists_ fs (resolve cwd t) = true /\ is_prefix own (resolve cwd t) = true /\
+    In (P false [pname own]) roots /\
+    (forall r, In r roots -> covers cwd (resolve cwd t) r = false) /\
+    read_files fs cwd [t] [P true own] [] = Ok [id_Tabby] /\
+    infer_root fs cwd t roots = Ok (P false [s_workspace]) /\
+    read_files fs cwd [t] roots [] = Err RInvalid.
+Proof.
+  exists doc_fs, [], (P false f_Tabby), [P false [s_animals]; P false d_plants], d_animals.
+  split; [vm_compute; reflexivity|]. split; [vm_compute; reflexivity|]. split; [left; reflexivity|].
+  split; [intros r [<-|[<-|[]]]; vm_compute; reflexivity|].
+  split; [vm_compute; reflexivity|]. split; vm_compute; reflexivity.
+Qed.
+Print Assumptions C15_strategy3_ancestor_refuted.
+
+(* F15 (fixed): a blank before the first dot is no longer stripped: the file is rejected *)
+Example C15_trailing_blank_rejected :
+  let ns := [110; 115] in
+  let foo := [70; 111; 111; 32; 46; 49; 46; 48; 46; 100; 115; 100; 108] in
+  read_namespace (mkFs [([ns; foo], false)] [[]; [ns]]) [] (P false [ns]) [] = Err RInvalid.
+Proof. vm_compute. reflexivity. Qed.
+
+(* non-vacuity of the hypotheses of C15_identity / C15_roundtrip: ns/sub/7.Abc.1.2.dsdl *)
+Example C15_nonvacuous :
+  let ns := [110; 115] in let sub := [115; 117; 98] in
+  let b := [55; 46; 65; 98; 99; 46; 49; 46; 50; 46; 100; 115; 100; 108] in
+  let fs := mkFs [([ns; sub; b], false)] [[]; [ns]; [ns; sub]] in
+  b = render_basename (Some [55]) [65; 98; 99] [49] [50] [100; 115; 100; 108] /\
+  wf_fields (Some [55]) [65; 98; 99] [49] [50] [100; 115; 100; 108] /\
+  identity_of fs [ns; sub; b] [ns] = Ok (mkId [110; 115; 46; 115; 117; 98; 46; 65; 98; 99] 1 2 (Some 7) [ns; sub; b] [ns]).
+Proof.
+  cbv zeta. split; [reflexivity|]. split; [|vm_compute; reflexivity].
+  unfold wf_fields, no_dot, digits, dot. simpl. repeat split; try discriminate; intros; intuition (subst; lia).
+Qed.
